@@ -59,13 +59,13 @@ Theorem C08_binary_acc : forall b t, wf b -> t < 256 -> acc_iff_ref (binary_skip
 Proof. exact binary_acc. Qed.
 
 (* The generic template over ANY SkipN that satisfies the contract (Rep s r: "s delivers exactly r
-   next"), any budget, inputs shorter than 2^31 (see the finding below) *)
-Theorem C08_tskip_is_ref_partial :
+   next"), any budget, inputs of any length *)
+Theorem C08_tskip_is_ref :
   forall (St : Type) (skipN : St -> N -> sres St bytes) (Rep : St -> bytes -> Prop),
   (forall s r n, Rep s r -> n <= len r -> exists s', skipN s n = (s', Ok (take n r)) /\ Rep s' (drop n r)) ->
   (forall s r n, Rep s r -> len r < n -> exists s' c, skipN s n = (s', Err c) /\ c <> e_fuel) ->
   (forall s r, Rep s r -> wf r) ->
-  forall fu d s r t, Rep s r -> t < 256 -> (length r < fu)%nat /\ len r < two31 ->
+  forall fu d s r t, Rep s r -> t < 256 -> (length r < fu)%nat ->
   match rp inl_none d t r with
   | Ok (n, _) => exists s', tskip skipN d fu s t = (s', Ok tt) /\ Rep s' (drop n r)
   | Err _ => exists s' c, tskip skipN d fu s t = (s', Err c) /\ c <> e_fuel
@@ -74,7 +74,7 @@ Theorem C08_tskip_is_ref_partial :
 Proof. exact tskip_sim. Qed.
 
 (* BytesSkipDecoder.Next: returns exactly the first n bytes, keeps the rest *)
-Theorem C08_bytes_decoder_is_ref_partial : forall b t d, wf b -> t < 256 -> len b < two31 ->
+Theorem C08_bytes_decoder_is_ref : forall b t d, wf b -> t < 256 ->
   match rp inl_none d t b with
   | Ok (n, _) => bs_next_depth (bs_new b) t d = ({| bs_b := drop n b; bs_n := 0 |}, Ok (take n b))
   | Err _ => exists s c, bs_next_depth (bs_new b) t d = (s, Err c) /\ c <> e_fuel
@@ -82,19 +82,18 @@ Theorem C08_bytes_decoder_is_ref_partial : forall b t d, wf b -> t < 256 -> len 
   end.
 Proof. exact bs_next_is_ref. Qed.
 
-Theorem C08_bytes_decoder_acc_partial : forall b t, wf b -> t < 256 -> len b < two31 ->
+Theorem C08_bytes_decoder_acc : forall b t, wf b -> t < 256 ->
   acc_iff_ref (bs_extent b t) inl_none t b.
 Proof. exact bs_acc. Qed.
 
-Theorem C08_bytes_decoder_safe_partial : forall b t, wf b -> t < 256 -> len b < two31 ->
+Theorem C08_bytes_decoder_safe : forall b t, wf b -> t < 256 ->
   safe (snd (bs_next (bs_new b) t)).
 Proof. exact bs_next_safe. Qed.
 
 (* ReaderSkipDecoder.Next over EVERY scripted source: any fragmentation incl. empty reads, any final
    error (delivered with the last bytes or after them); the source is advanced by exactly n *)
-Theorem C08_readfull_decoder_is_ref_partial : forall src blen t d,
-  wf (sdata src) -> spos src <= len (sdata src) -> sfinal src <> e_fuel ->
-  len (sdata src) - spos src < two31 -> t < 256 ->
+Theorem C08_readfull_decoder_is_ref : forall src blen t d,
+  wf (sdata src) -> spos src <= len (sdata src) -> sfinal src <> e_fuel -> t < 256 ->
   match rp inl_none d t (drop (spos src) (sdata src)) with
   | Ok (n, _) => exists s', rf_next_depth (rf_new src blen) t d
                               = (s', Ok (take n (drop (spos src) (sdata src)))) /\
@@ -104,16 +103,15 @@ Theorem C08_readfull_decoder_is_ref_partial : forall src blen t d,
   end.
 Proof. exact rf_next_is_ref. Qed.
 
-Theorem C08_readfull_decoder_acc_partial : forall src blen t,
-  wf (sdata src) -> spos src <= len (sdata src) -> sfinal src <> e_fuel ->
-  len (sdata src) - spos src < two31 -> t < 256 ->
+Theorem C08_readfull_decoder_acc : forall src blen t,
+  wf (sdata src) -> spos src <= len (sdata src) -> sfinal src <> e_fuel -> t < 256 ->
   acc_iff_ref (rf_extent src blen t) inl_none t (drop (spos src) (sdata src)).
 Proof. exact rf_acc. Qed.
 
 (* The two bufiox-backed skippers, for every reachable reader state [SAt S c st]: any source, any
    fragmentation script that cannot stall, any history (Proofs/BufReaderP.v, property C04) *)
-Theorem C08_bufferreader_is_ref_partial : forall S c st t d,
-  wf S -> SAt S c st -> c <= len S -> len S - c < two31 -> t < 256 ->
+Theorem C08_bufferreader_is_ref : forall S c st t d,
+  wf S -> SAt S c st -> c <= len S -> t < 256 ->
   match rp inl_br d t (drop c S) with
   | Ok (n, _) => exists st', br_skip_depth st t d = (st', Ok tt) /\ SAt S (c + n) st' /\
                              r_readlen st' = r_readlen st + n
@@ -122,12 +120,12 @@ Theorem C08_bufferreader_is_ref_partial : forall S c st t d,
   end.
 Proof. exact brskip_is_ref_closed. Qed.
 
-Theorem C08_bufferreader_acc_partial : forall S c st t,
-  wf S -> SAt S c st -> len S - c < two31 -> t < 256 -> acc_iff_ref (br_extent st t) inl_br t (drop c S).
+Theorem C08_bufferreader_acc : forall S c st t,
+  wf S -> SAt S c st -> t < 256 -> acc_iff_ref (br_extent st t) inl_br t (drop c S).
 Proof. exact br_acc. Qed.
 
-Theorem C08_peek_decoder_is_ref_partial : forall S c st t d rn0,
-  wf S -> SAt S c st -> c <= len S -> len S - c < two31 -> t < 256 ->
+Theorem C08_peek_decoder_is_ref : forall S c st t d rn0,
+  wf S -> SAt S c st -> c <= len S -> t < 256 ->
   match rp inl_none d t (drop c S) with
   | Ok (n, _) => exists st', pk_next_depth {| pk_r := st; pk_rn := rn0 |} t d
                                = ({| pk_r := st'; pk_rn := n |}, Ok (take n (drop c S))) /\
@@ -137,8 +135,8 @@ Theorem C08_peek_decoder_is_ref_partial : forall S c st t d rn0,
   end.
 Proof. exact pk_next_is_ref_closed. Qed.
 
-Theorem C08_peek_decoder_acc_partial : forall S c st rn0 t,
-  wf S -> SAt S c st -> len S - c < two31 -> t < 256 -> acc_iff_ref (pk_extent st rn0 t) inl_none t (drop c S).
+Theorem C08_peek_decoder_acc : forall S c st rn0 t,
+  wf S -> SAt S c st -> t < 256 -> acc_iff_ref (pk_extent st rn0 t) inl_none t (drop c S).
 Proof. exact pk_acc. Qed.
 
 (* The same two theorems parametric in the reader contract (what they need from the reader) *)
@@ -163,7 +161,7 @@ Theorem C08_bufferreader_is_ref_contract :
      exists st' e, r_peek st (Z.of_N n) = (st', OErr e) /\ At S c st' /\ r_readlen st' = r_readlen st /\
                    (0 <= e < 99)%Z) ->
   (forall S c st, At S c st -> (length (drop c S) <= length (win st) + length (sdata (src st)))%nat) ->
-  forall S c st t d, wf S -> At S c st -> c <= len S -> len S - c < two31 -> t < 256 ->
+  forall S c st t d, wf S -> At S c st -> c <= len S -> t < 256 ->
   match rp inl_br d t (drop c S) with
   | Ok (n, _) => exists st', br_skip_depth st t d = (st', Ok tt) /\ At S (c + n) st' /\
                              r_readlen st' = r_readlen st + n
@@ -172,39 +170,38 @@ Theorem C08_bufferreader_is_ref_contract :
   end.
 Proof. exact brskip_is_ref. Qed.
 
-(* ================= FINDING: the unbounded statement is false for the template ================= *)
-(* full strength: no bound on the input length *)
-Definition C08_tskip_is_ref_statement : Prop :=
-  forall b t, wf b -> t < 256 -> acc_iff_ref (bs_extent b t) inl_none t b.
-
-(* witness: 80 00 00 00 followed by 2^31 bytes, type STRING: the declared length has the sign bit
-   set, the grammar says "negative size", BytesSkipDecoder.Next accepts 2^31 + 4 bytes *)
-Theorem C08_tskip_is_ref_refuted : ~ C08_tskip_is_ref_statement.
-Proof. exact tskip_is_ref_refuted. Qed.
-
-Theorem C08_negative_string_accepted : forall tail, len tail = two31 -> wf tail ->
+(* ================= negative declared sizes: the repaired finding (/repo 2c7f196) =================
+   Before the repair SkipDecoderTpl read a STRING length, and BufferReader the container counts, as
+   int(uint32): with the sign bit set and >= 2^31 bytes following, the value was accepted (the five
+   skippers disagreed; the unbounded statements C08_bytes_decoder_acc / C08_bufferreader_acc were
+   refuted by 80000000 ++ 2^31 bytes and 02 80000000 ++ 2^31 bytes).  They are now theorems for inputs
+   of any length; the former witnesses are rejected whatever (and however much) follows: *)
+Theorem C08_negative_string_rejected : forall tail, wf tail ->
   let b := be 4 two31 ++ tail in
-  wf b /\ gparse T_STRING b = Err E_NEGSIZE /\ refparse inl_none 64 T_STRING b = Err E_NEGSIZE /\
-  bs_extent b T_STRING = Ok (4 + two31).
-Proof. exact bs_negative_string. Qed.
+  gparse T_STRING b = Err E_NEGSIZE /\ (exists c, bs_extent b T_STRING = Err c /\ c <> e_fuel) /\
+  (exists c, binary_skip b T_STRING = Err c /\ c <> e_fuel).
+Proof. exact neg_string_rejected. Qed.
 
-
-(* BufferReader.Skip: container counts are int(uint32): a LIST<BOOL> whose count has the sign bit
-   set, followed by that many bytes, is accepted; the grammar says "negative size" *)
-Definition C08_bufferreader_is_ref_statement : Prop :=
-  forall S c st t, wf S -> SAt S c st -> t < 256 -> acc_iff_ref (br_extent st t) inl_br t (drop c S).
-
-Theorem C08_bufferreader_is_ref_refuted : ~ C08_bufferreader_is_ref_statement.
-Proof. exact brskip_is_ref_refuted. Qed.
-
-Theorem C08_negative_count_accepted : forall tail, len tail = two31 -> wf tail ->
+Theorem C08_negative_count_rejected : forall tail, wf tail ->
   let S := 2 :: be 4 two31 ++ tail in
   let st := new_bytes_reader S (len S) in
-  wf S /\ SAt S 0 st /\ gparse T_LIST S = Err E_NEGSIZE /\ br_extent st T_LIST = Ok (5 + two31).
-Proof. exact br_negative_count. Qed.
+  gparse T_LIST S = Err E_NEGSIZE /\ (exists c, br_extent st T_LIST = Err c /\ c <> e_fuel).
+Proof. exact neg_count_rejected. Qed.
 
-(* Binary.Skip is not affected: every negative declared size the parse reaches is rejected, for
-   inputs of any length (instance of C08_rejects_malformed through C08_binary_acc) *)
+(* small-scale regression: a sign-bit size is rejected AS NEGATIVE by every model (before the repair
+   the stream models answered "source exhausted" here, and accepted when 2^31 bytes followed) *)
+Example C08_ex_sign_bit_sizes :
+  let s := hx "8000000000" in let l := hx "0280000000ff" in let m := hx "0b0280000000ff" in
+  let src d := {| sdata := d; sfinal := e_eof; swith := false; schunks := [2; 0; 1]; spos := 0 |} in
+  binary_skip s 11 = Err e_neg_size /\ snd (bs_next (bs_new s) 11) = Err e_neg_size /\
+  snd (rf_next (rf_new (src s) 0) 11) = Err e_neg_size /\ snd (pk_next (pk_new (new_reader (src s))) 11) = Err e_neg_size /\
+  snd (br_skip (new_reader (src s)) 11) = Err e_neg_size /\
+  binary_skip l 15 = Err e_neg_size /\ snd (bs_next (bs_new l) 15) = Err e_neg_size /\
+  snd (br_skip (new_reader (src l)) 15) = Err e_neg_size /\ snd (br_skip (new_reader (src l)) 14) = Err e_neg_size /\
+  snd (br_skip (new_reader (src m)) 13) = Err e_neg_size /\ snd (pk_next (pk_new (new_reader (src m))) 13) = Err e_neg_size.
+Proof. cbv zeta. repeat split; vm_compute; reflexivity. Qed.
+
+(* spelled out for Binary.Skip (instances of C08_rejects_malformed through C08_binary_acc) *)
 Theorem C08_binary_rejects_negative_size : forall b t, wf b -> t < 256 ->
   gparse t b = Err E_NEGSIZE -> exists c, binary_skip b t = Err c /\ c <> e_fuel.
 Proof. intros b t W Ht G. exact (z_rejects_malformed _ _ _ _ (binary_acc b t W Ht) E_NEGSIZE G). Qed.
@@ -257,8 +254,8 @@ Proof.
 Qed.
 
 (* ================= non-vacuity ================= *)
-(* wf b, t < 256 (and len b < 2^31): a map<string,i64> with one entry *)
-Example C08_ex_binary : exists b t, wf b /\ t < 256 /\ len b < two31 /\ binary_skip b t = Ok 19 /\
+(* wf b, t < 256: a map<string,i64> with one entry *)
+Example C08_ex_binary : exists b t, wf b /\ t < 256 /\ binary_skip b t = Ok 19 /\
                                     bs_extent b t = Ok 19 /\ gparse t b = Ok (19, 1%nat).
 Proof.
   exists (hx "0b0a0000000100000001610000000000000001ff"), 13.
